@@ -178,6 +178,8 @@ impl<'a> TagTrainer<'a> {
 
             // train
             let (feature_ids, xs, ys) = Self::gen_feature_vecs(examples, i, tag_ids);
+            #[cfg(feature = "verif-hooks")]
+            let class_offset_category = i;
 
             let mut builder = liblinear::Builder::new();
             let training_input = liblinear::util::TrainingInput::from_sparse_features(ys, xs)
@@ -209,6 +211,14 @@ impl<'a> TagTrainer<'a> {
                     (model.label_bias(i32::try_from(i).unwrap()) / quantize_multiplier)
                         .to_int_unchecked::<i32>()
                 };
+                #[cfg(feature = "verif-hooks")]
+                crate::verif_hooks::record_tag(crate::verif_hooks::TagLogEntry {
+                    token: token.clone(),
+                    category: class_offset_category,
+                    class: usize::try_from(cls).unwrap(),
+                    feature: None,
+                    value: bias[class_offset + usize::try_from(cls).unwrap()],
+                });
             }
             for (feature, fid) in feature_ids {
                 match feature {
@@ -224,6 +234,14 @@ impl<'a> TagTrainer<'a> {
                             let weight = unsafe {
                                 (raw_weight / quantize_multiplier).to_int_unchecked::<i32>()
                             };
+                            #[cfg(feature = "verif-hooks")]
+                            crate::verif_hooks::record_tag(crate::verif_hooks::TagLogEntry {
+                                token: token.clone(),
+                                category: class_offset_category,
+                                class: usize::try_from(cls).unwrap(),
+                                feature: Some(crate::verif_hooks::FeatureDesc::Char { ngram: ngram.to_string(), rel: *rel_position }),
+                                value: weight,
+                            });
                             if weight == 0 {
                                 continue;
                             }
@@ -245,6 +263,14 @@ impl<'a> TagTrainer<'a> {
                             let weight = unsafe {
                                 (raw_weight / quantize_multiplier).to_int_unchecked::<i32>()
                             };
+                            #[cfg(feature = "verif-hooks")]
+                            crate::verif_hooks::record_tag(crate::verif_hooks::TagLogEntry {
+                                token: token.clone(),
+                                category: class_offset_category,
+                                class: usize::try_from(cls).unwrap(),
+                                feature: Some(crate::verif_hooks::FeatureDesc::Type { ngram: ngram.to_vec(), rel: *rel_position }),
+                                value: weight,
+                            });
                             if weight == 0 {
                                 continue;
                             }
